@@ -19,6 +19,7 @@ import tempfile
 import numpy as np
 
 from harness import bootstrap  # noqa: F401
+from harness import c18_aux as AUXMOD
 from harness import c18_cli as C
 from harness import c18_parser as P
 from harness import tlc as tlcmod
@@ -31,7 +32,9 @@ from phonopy.structure.atoms import PhonopyAtoms
 
 # doc/interfaces.md: default displacement distances
 JENV = {"_JAVA_OPTIONS": "-XX:ParallelGCThreads=2 -XX:CICompilerCount=2"}
-DOC_DEFAULT_DISTANCE = {"vasp": 0.01, "qe": 0.02, "abinit": 0.02}
+DOC_DEFAULT_DISTANCE = {"vasp": 0.01, "wien2k": 0.02, "qe": 0.02, "abinit": 0.02, "siesta": 0.02, "elk": 0.02,
+                        "crystal": 0.01, "dftbp": 0.01, "turbomole": 0.02, "cp2k": 0.01, "aims": 0.01, "fleur": 0.02,
+                        "castep": 0.01, "abacus": 0.02, "lammps": 0.01, "pwmat": 0.01}  # pwmat: not in the table
 
 CFG_WF = """INIT WInit
 NEXT WNext
@@ -44,6 +47,7 @@ INVARIANT OutputsComputed
 INVARIANT CommandDefaults
 INVARIANT ModePrecedence
 INVARIANT NacFactorRule
+INVARIANT AuxPreconditions
 """
 
 CFG_WFT = """INIT WTInit
@@ -63,12 +67,14 @@ INVARIANT OutputsComputed
 INVARIANT CommandDefaults
 INVARIANT ModePrecedence
 INVARIANT NacFactorRule
+INVARIANT AuxPreconditions
 """
 
 SBASE = dict(dim=False, disp=False, fsets=False, fsz=False, mode="none", nac=False, fcsym=False, fccalc="",
              readfc=False, writefc=False, rfmt_hdf5=False, wfmt_hdf5=False, fullfc=False, spg=False, cutoff=False,
              tprop=False, tdisp=False, tdm=False, pdos=False, dos=False, moment=False, wmesh=True, mesh_hdf5=False,
-             band_hdf5=False, qp_hdf5=False, readq=False, qgiven=False, cif=False, save_params=False)
+             band_hdf5=False, qp_hdf5=False, readq=False, qgiven=False, cif=False, save_params=False,
+             bulk_only=False, calcs_ok=False)
 
 
 def mc_families(quick):
@@ -104,7 +110,11 @@ FamP == {[id |-> "P", cmd |-> c, inp |-> {"yaml", "FORCE_SETS"},
                               !.fcsym = y, !.fccalc = f, !.save_params = p]] :
          c \\in Cmds, w \\in B, h \\in B, g \\in B, u \\in B, k \\in B, y \\in B, p \\in B,
          f \\in {"", "traditional", "symfc"}}
-MCWCases == FamA \\cup FamN \\cup FamF \\cup FamM \\cup FamP
+FamX == {[id |-> "X", cmd |-> c, inp |-> i, s |-> [SBase EXCEPT !.bulk_only = b, !.calcs_ok = k, !.band_hdf5 = h]] :
+         c \\in AuxCmds, b \\in B, k \\in B, h \\in B,
+         i \\in SUBSET {"e-v.dat", "thermal_properties_set", "infile", "outfile", "band.yaml", "band.hdf5",
+                       "thermal_properties.yaml"}}
+MCWCases == FamA \\cup FamN \\cup FamF \\cup FamM \\cup FamP \\cup FamX
 MCInstalled == {"traditional"}
 ====
 """ % (to_tla(SBASE), "{}" if quick else '{"cell"}', "{FALSE}" if quick else "B", tset, hset)
@@ -188,6 +198,83 @@ class Setup:
 
     def cleanup(self):
         shutil.rmtree(self.dir, ignore_errors=True)
+
+
+SWEEP_CALCS = ["abacus", "abinit", "aims", "castep", "cp2k", "crystal", "dftbp", "elk", "fleur", "lammps", "pwmat",
+               "qe", "siesta"]  # calculators with a structure input and a force-output emitter in harness/c17_io.py
+
+
+class SweepSetup(Setup):
+    """CsCl 2x2x2 for one of the calculators of harness/c17_io.py: the unit-cell input is written by
+    c17_io.unit_input (C17 checks those files), the reference cell is the cell phonopy's reader returns,
+    the calculator outputs with the forces are written by c17_io.emit_output."""
+
+    def __init__(self, calc, seed, ctx):
+        from harness import c17_io
+
+        self.io = c17_io
+        self.name, self.calc = "cscl", calc
+        self.cfg = SETUPS["cscl"]
+        self.S = self.cfg["S"]
+        self.orc = Oracle("cscl", [self.S], seed=seed + 11, rotate=False, ctx=ctx)
+        uc = self.orc.unitcell()
+        self.calcname = calc
+        self.units = get_default_physical_units(calc)
+        self.pmat = None
+        self.dir = tempfile.mkdtemp(prefix="c18s_%s_" % calc)
+        self.cellfile = "unit_%s.in" % calc
+        cwd = os.getcwd()
+        os.chdir(self.dir)
+        try:
+            plain = PhonopyAtoms(symbols=list(uc.symbols), cell=uc.cell, scaled_positions=uc.scaled_positions)
+            self.cell_read, _ = c17_io.unit_input(calc, plain, self.cellfile)
+        finally:
+            os.chdir(cwd)
+        self.symbols = list(self.cell_read.symbols)
+        self.lattice = np.array(self.cell_read.cell)
+        self.scaled = np.array(self.cell_read.scaled_positions)
+        self._ph0 = Phonopy(plain, self.S, log_level=0)
+        self._fc0 = self.orc.supercell_fc(self.S, self._ph0.supercell)
+        ph0 = self.make(None)
+        if list(ph0.supercell.symbols) != list(self._ph0.supercell.symbols) or \
+                np.abs(ph0.supercell.scaled_positions - self._ph0.supercell.scaled_positions).max() > 1e-5:
+            raise tlcmod.MachineryError("sweep %s: the reader returns another atom order" % calc)
+        z = {"Na": 1.1, "Cl": -1.1}
+        self.born = np.array([np.eye(3) * z[s_] for s_ in ph0.primitive.symbols])
+        self.eps = np.eye(3) * 2.43
+        self.cases_run = 0
+
+    def cell(self):
+        return self.cell_read.copy()
+
+    def full_fc(self, ph):
+        return self._fc0  # the oracle's harmonic model, numbers taken in the calculator's own units
+
+    def write_forces(self, name, sc, forces):
+        return os.path.basename(self.io.emit_output(self.calc, os.path.join(self.dir, name), sc, forces,
+                                                    supercell_lattice=sc.cell))
+
+
+def sweep_cases(su):
+    opt = ["--dftb+"] if su.calc == "dftbp" else ["--" + su.calc]
+    dim = [str(su.S[i][i]) for i in range(3)]
+
+    def after_disp(su, st):
+        ph = su.make(st)
+        ph.generate_displacements(distance=DOC_DEFAULT_DISTANCE[su.calc])
+        su.disps = [(x["number"], list(x["displacement"])) for x in ph.dataset["first_atoms"]]
+        disp_arr = np.zeros((len(su.disps), len(ph.supercell), 3))
+        for i, (a, dv) in enumerate(su.disps):
+            disp_arr[i, a] = dv
+        su.forces = su.forces_for(ph, disp_arr)
+        su.force_files = [su.write_forces("calc-%03d.out" % (i + 1), sc, su.forces[i])
+                          for i, sc in enumerate(ph.supercells_with_displacements)]
+
+    L = ["--fc-calc", "traditional"]
+    return [Case("disp", "phonopy", opt + ["-c", su.cellfile, "--dim"] + dim + ["-d"], after=after_disp),
+            Case("force-sets", "phonopy", ["-f", "@FORCEFILES@"], force_files="@"),
+            Case("qpoints", "load", L + ["--qpoints", "0.1 0.2 0.3 1/2 0 0"]),
+            Case("qpoints-option", "phonopy", opt + ["-c", su.cellfile, "--dim"] + dim + ["--qpoints", "0.1 0.2 0.3"])]
 
 
 # ---------------------------------------------------------------------------------------------
@@ -300,10 +387,14 @@ MODULATED_FILES = ("MPOSCAR", "Munitcell", "Msupercell")
 ANIME_FILES = ("anime.", "APOSCAR-")
 
 
-def abstract_outputs(written):
+def abstract_outputs(written, loose=False):
+    """loose: the structure files of the other calculators have their own names - in a `-d` run
+    every file but phonopy_disp.yaml is a supercell file"""
     out = set()
     for f in written:
-        if f.startswith(SUPERCELL_FILES):
+        if loose and "phonopy_disp.yaml" in written and f != "phonopy_disp.yaml":
+            out.add("SUPERCELLS")
+        elif f.startswith(SUPERCELL_FILES):
             out.add("SUPERCELLS")
         elif f.startswith(MODULATED_FILES):
             out.add("MODULATED")
@@ -696,8 +787,12 @@ def compare_outputs(setup, rp, res, written, cmp, outdir):
                 P(f + ":displacements", y["dataset"]["displacements"], ds["displacements"], 16)
             cmp.equal(f + ":configuration", {k: str(v) for k, v in y["phonopy"].get("configuration", {}).items()},
                       {k: str(v) for k, v in rp.confs.items()})
-            nsc = len([w for w in written if w.startswith(SUPERCELL_FILES)])
-            cmp.equal(f + ":number of supercell files", nsc, len(res["supercells"]) + 1)
+            if isinstance(setup, SweepSetup):  # own file names, some calculators write two files per cell
+                nsc = len([w for w in written if w != f])
+                cmp.equal(f + ":supercell files written", nsc >= len(res["supercells"]) + 1, True)
+            else:
+                nsc = len([w for w in written if w.startswith(SUPERCELL_FILES)])
+                cmp.equal(f + ":number of supercell files", nsc, len(res["supercells"]) + 1)
             if setup.calc == "vasp":
                 for i, sc in enumerate(res["supercells"]):
                     lines = _text(path("POSCAR-%03d" % (i + 1))).split("\n")
@@ -711,7 +806,9 @@ def compare_outputs(setup, rp, res, written, cmp, outdir):
             cmp.equal(f + ":natom", natom, len(rp.ph.supercell))
             cmp.equal(f + ":displaced atoms", [a for a, _, _ in sets], [a for a, _ in setup.disps])
             cmp.close(f + ":displacements", [dv for _, dv, _ in sets], [dv for _, dv in setup.disps], 0.6e-16)
-            cmp.close(f + ":forces", [fv for _, _, fv in sets], res["force_sets"], 0.6e-10)
+            # printed with 10 decimals; the sweep's emitters print some formats with 10 decimals themselves
+            cmp.close(f + ":forces", [fv for _, _, fv in sets], res["force_sets"],
+                      1.2e-10 if isinstance(setup, SweepSetup) else 0.6e-10)
         elif f == "phonopy_params.yaml" and "force_sets" in res:
             cmp.checked.add(f)
             y = C.load_yaml(path(f))
@@ -856,9 +953,9 @@ def compare_outputs(setup, rp, res, written, cmp, outdir):
             cmp.equal(f + ":number of modulations", len(y["modulations"]), len(m["u"]))
             dec = C.decimals(t, "displacements")
             for i, (ym, u) in enumerate(zip(y["modulations"], m["u"])):
-                d = np.array(ym["displacements"], dtype=float)
-                P(f + ":displacements re", d[:, 0], u.real.ravel(), dec)
-                P(f + ":displacements im", d[:, 1], u.imag.ravel(), dec)
+                dd = np.array(ym["displacements"], dtype=float)
+                P(f + ":displacements re", dd[:, 0], u.real.ravel(), dec)
+                P(f + ":displacements im", dd[:, 1], u.imag.ravel(), dec)
                 cmp.equal(f + ":band", ym["band"], rp.st.modulation["modulations"][i][1] + 1)
             if setup.calc == "vasp":
                 for i, cell in enumerate(m["cells"]):
@@ -1144,7 +1241,8 @@ def workflow_cases(su, full):
                                        % (3 * len(su.symbols))])
         add("irreps-gamma", cmd, base + ["--irreps", "0", "0", "0"])
         add("irreps-x-lcg", cmd, base + ["--irreps", "1/2", "0", "0", "1e-3", "--show-irreps", "--lcg"])
-        add("anime-vsim", cmd, base + ["--anime", "0", "0.5", "0", "3.0"])
+        add("anime-vsim", cmd, base + ["--anime", "0", "0.5", "0"])  # (a 4th value, the amplitude, makes
+        # Animation.write_v_sim raise UnboundLocalError in the library itself: fixes/c18-anime-vsim-amplitude.md)
         add("write-anime-conf", cmd, None, before=lambda su: [open(os.path.join(su.dir, "anime_%s.conf" % t), "w").write(
             "ANIME_TYPE = %s\nANIME = 2 3 4\n" % t.upper()) for t in ("poscar", "xyz", "jmol")])
         for t in ("poscar", "xyz", "jmol"):
@@ -1189,10 +1287,98 @@ def workflow_cases(su, full):
         add("save-params", cmd, base + ["--mesh"] + M + ["--save-params"])
         add("rm-params", cmd, None, before=lambda su: os.remove(os.path.join(su.dir, "phonopy_params.yaml")))
     if full:
+        aux_cases(su, add, L, M, band)
         add("force-sets-save-params", "phonopy", ["-f", "@FORCEFILES@", "--sp"], force_files="@")
         add("from-params", "phonopy", ["phonopy_params.yaml", "--mesh"] + M)
         add("from-params", "load", L + ["phonopy_params.yaml", "--mesh"] + M)
     return cases
+
+
+def run_aux_case(ctx, su, cs, argv, cid, casedir, jobs):
+    inp, s, info = AUXMOD.abstract(cs.cmd, argv, su.dir, SBASE)
+    indir = os.path.join(casedir, cid.replace(":", "_"), "in")
+    outdir = os.path.join(casedir, cid.replace(":", "_"), "out")
+    os.makedirs(indir)
+    os.makedirs(outdir)
+    for f in os.listdir(su.dir):
+        if f != "_case" and os.path.isfile(os.path.join(su.dir, f)) and not f.startswith(("calc", "POSCAR-", "supercell-")) \
+                and os.path.getsize(os.path.join(su.dir, f)) < 5e6:
+            shutil.copy(os.path.join(su.dir, f), indir)
+    r = C.run_script(AUXMOD.AUX[cs.cmd], argv, su.dir)
+    written = [w for w in r["written"] if not w.startswith("_case")]
+    for w in written:
+        os.makedirs(os.path.dirname(os.path.join(outdir, w)), exist_ok=True)
+        shutil.copy(os.path.join(su.dir, w), os.path.join(outdir, w))
+    out = AUXMOD.abstract_outputs(cs.cmd, argv, r, info)
+    # phonopy-bandplot --gnuplot ends with sys.exit(1) after printing the data: judged by what it printed
+    ok = (r["exc"] is None) and (r["code"] == 0 or (cs.cmd == "bandplot" and "stdout" in out))
+    if cs.cmd == "bandplot" and "stdout" in out and r["code"] != 0:
+        ctx.extra.setdefault("aux_traits", set()).add("phonopy-bandplot --gnuplot exits with status %s after printing the data" % r["code"])
+    from harness import c17_io
+
+    jobs.append(dict(id=cid, cmd=cs.cmd, argv=argv, inp=inp, s=s, st=None, confs=None, yaml_file=None, indir=indir,
+                     outdir=outdir, written=written, status="ok" if ok else "fail", exc=r["exc"], stdout=r["stdout"],
+                     stdout_tail=r["stdout"][-1500:], setup=su, fsz=False, solver="traditional", sweep=False,
+                     info=info, aux_out=out, tol=c17_io.TOL.get((info.get("cout") or "").lower(), dict(frac=1e-9, lat=1e-9))))
+    su.cases_run += 1
+    ctx.count(cid)
+
+
+def aux_cases(su, add, L, M, band):
+    """the other console scripts, on files the main commands have just written"""
+    d = su.dir
+    calc = C.CALCS[su.calc]
+    # phonopy-bandplot / phonopy-propplot, gnuplot data paths
+    add("band-for-plot", "load", L + ["--band", band, "--band-points", "5"])
+    add("bandplot-gnuplot", "bandplot", ["--gnuplot"])
+    add("bandplot-gnuplot-factor", "bandplot", ["--gnuplot", "--factor", "33.35641", "band.yaml"])
+    add("bandplot-gnuplot-missing", "bandplot", ["--gnuplot", "nothere.yaml"])
+    add("band-hdf5-for-plot", "load", L + ["--band", band, "--band-points", "5", "--band-format", "hdf5"])
+    add("bandplot-gnuplot-hdf5", "bandplot", ["--gnuplot", "--hdf5"])
+    add("tprop-for-plot", "load", L + ["--mesh"] + M + ["-t", "--tmax", "300", "--tstep", "25"])
+    add("propplot-gnuplot", "propplot", ["--gnuplot"])
+    add("propplot-gnuplot-range", "propplot", ["--gnuplot", "--tmin", "50", "--tmax", "200", "thermal_properties.yaml"])
+    add("propplot-gnuplot-missing", "propplot", ["--gnuplot", "nothere.yaml"])
+    # phonopy-qha: thermal properties of seven "volumes" (frequencies scaled with a Grueneisen constant of
+    # 1.5 through --factor), electronic energies from a cubic E(V)
+    ph = su.make(None)
+    v0 = float(ph.primitive.volume)
+    fac0 = su.units["factor"]
+    vols = [v0 * (0.94 + 0.02 * i) for i in range(7)]
+    for i, v in enumerate(vols):
+        add("qha-tprop-%d" % i, "load", L + ["--mesh"] + M + ["-t", "--tmax", "400", "--tstep", "10", "--factor",
+                                                              "%.6f" % (fac0 * (v0 / v) ** 1.5)])
+        add("keep-tp-%d" % i, "load", None, before=(lambda i: lambda su: shutil.copy(
+            os.path.join(su.dir, "thermal_properties.yaml"), os.path.join(su.dir, "tp-%d.yaml" % i)))(i))
+
+    def write_ev(su):
+        with open(os.path.join(d, "e-v.dat"), "w") as f:
+            f.write("# volume energy\n")
+            for v in vols:
+                x = (v - v0) / v0
+                f.write("%.10f %.10f\n" % (v, -10.0 + 9.0 * x * x - 14.0 * x ** 3))
+
+    add("write-e-v", "load", None, before=write_ev)
+    tps = ["tp-%d.yaml" % i for i in range(7)]
+    add("qha", "qha", ["e-v.dat"] + tps + ["--tmax", "300"])
+    add("qha-murnaghan-pressure", "qha", ["--eos", "murnaghan", "--pressure", "1.5", "--tmax", "250", "--sparse", "20",
+                                          "e-v.dat"] + tps)
+    add("qha-bulk-modulus", "qha", ["-b", "e-v.dat"])
+    add("qha-bulk-modulus-bm", "qha", ["-b", "--eos", "birch_murnaghan", "e-v.dat"])
+    add("qha-file-count", "qha", ["e-v.dat"] + tps[:5])
+    add("qha-no-e-v", "qha", ["nothere.dat"] + tps)
+    add("rm-qha", "load", None, before=lambda su: [os.remove(os.path.join(su.dir, f)) for f in os.listdir(su.dir)
+                                                   if f.endswith(".dat") and f not in ("total_dos.dat", "projected_dos.dat")
+                                                   or f.startswith("tp-")])
+    # phonopy-calc-convert
+    for tgt in ("abinit", "aims", "castep", "dftbp", "lammps", "pwmat", "vasp"):
+        if tgt != su.calc:
+            add("convert-" + tgt, "convert", ["-i", su.cellfile, "--calcin", su.calc, "-o", "conv." + tgt, "--calcout", tgt])
+    add("convert-missing-input", "convert", ["-i", "nothere", "--calcin", su.calc, "-o", "conv.x", "--calcout", "abinit"])
+    add("convert-bad-calculator", "convert", ["-i", su.cellfile, "--calcin", su.calc, "-o", "conv.y", "--calcout", "foo"])
+    add("convert-output-exists", "convert", ["-i", su.cellfile, "--calcin", su.calc, "-o", "conv.aims", "--calcout", "aims"])
+    add("rm-conv", "load", None, before=lambda su: [os.remove(os.path.join(su.dir, f)) for f in os.listdir(su.dir)
+                                                    if f.startswith("conv.")])
 
 
 def born_independent(su):
@@ -1201,9 +1387,10 @@ def born_independent(su):
     su.born_indep = [su.born[i] for i in indep]
 
 
-def run_setup(ctx, su, full, events, expected_jobs):
+def run_setup(ctx, su, full, events, expected_jobs, cases=None):
     born_independent(su)
-    cases = workflow_cases(su, full)
+    sweep = cases is not None
+    cases = workflow_cases(su, full) if cases is None else cases
     casedir = os.path.join(su.dir, "_case")
     os.makedirs(casedir)
     seen = {}
@@ -1228,6 +1415,9 @@ def run_setup(ctx, su, full, events, expected_jobs):
         n = seen.get((cs.cmd, cs.label), 0)
         seen[(cs.cmd, cs.label)] = n + 1
         cid = "%s:%s:%s:%s%s" % (su.name, su.calc, cs.cmd, cs.label, "" if n == 0 else "#%d" % n)
+        if cs.cmd in AUXMOD.AUX:
+            run_aux_case(ctx, su, cs, argv, cid, casedir, expected_jobs)
+            continue
         cwd = os.getcwd()
         os.chdir(su.dir)
         try:
@@ -1246,12 +1436,14 @@ def run_setup(ctx, su, full, events, expected_jobs):
         os.makedirs(indir)
         os.makedirs(outdir)
         for f in os.listdir(su.dir):
-            if f != "_case" and os.path.isfile(os.path.join(su.dir, f)) and not f.startswith(("calc", "POSCAR-", "supercell-")):
+            if f != "_case" and os.path.isfile(os.path.join(su.dir, f)) and \
+                    not f.startswith(("calc", "POSCAR-", "supercell-")) and os.path.getsize(os.path.join(su.dir, f)) < 5e6:
                 shutil.copy(os.path.join(su.dir, f), indir)
         r = C.run_cli(cs.cmd, argv, su.dir)
         written = [w for w in r["written"] if not w.startswith("_case")]
         for w in written:
-            shutil.copy(os.path.join(su.dir, w), outdir)
+            os.makedirs(os.path.dirname(os.path.join(outdir, w)), exist_ok=True)
+            shutil.copy(os.path.join(su.dir, w), os.path.join(outdir, w))
         if cs.after is not None and r["code"] == 0:
             cs.after(su, st)
         status = "ok" if r["code"] == 0 and not r["exc"] else "fail"  # an uncaught exception is a failure too
@@ -1261,7 +1453,7 @@ def run_setup(ctx, su, full, events, expected_jobs):
         job = dict(id=cid, cmd=cs.cmd, argv=argv, inp=inp, s=s, st=st, confs=confs, yaml_file=yaml_file,
                    indir=indir, outdir=outdir, written=written, status=status, exc=r["exc"],
                    stdout_tail=r["stdout"][-1500:], setup=su, fsz=bool(st.create_force_sets_zero),
-                   solver=solver or "none")
+                   solver=solver or "none", sweep=sweep)
         expected_jobs.append(job)
         su.cases_run += 1
         ctx.count(cid)
@@ -1319,6 +1511,17 @@ def workflow_level(ctx):
             su = Setup(n, c, ctx.seed, ctx)
             setups.append(su)
             run_setup(ctx, su, full, None, jobs)
+        # calculator sweep: -d, -f and one phonon run for the other calculators (rotated by the seed)
+        used = {c for _, c, _ in combos}
+        rest = [c for c in SWEEP_CALCS if c not in used] if ctx.quick else list(SWEEP_CALCS)
+        if ctx.quick:
+            k = (ctx.seed * 4) % len(rest)
+            rest = (rest + rest)[k:k + (2 if os.environ.get("C18_FAST") else 4)]
+        for c in rest:
+            su = SweepSetup(c, ctx.seed, ctx)
+            setups.append(su)
+            run_setup(ctx, su, False, None, jobs, cases=sweep_cases(su))
+        ctx.extra["calculator_sweep"] = rest
         exp, cov = expected_from_tlc(ctx, jobs, installed)
         uncovered = [a for a, n in cov.items() if n == 0]
         ctx.extra["workflow_actions_fired"] = cov
@@ -1329,7 +1532,16 @@ def workflow_level(ctx):
         for j in jobs:
             e = exp[j["id"]]
             cmp = Cmp()
-            if e["status"] == "ok" and j["status"] == "ok":
+            if j["cmd"] in AUXMOD.AUX:
+                if e["status"] == "ok" and j["status"] == "ok":
+                    try:
+                        AUXMOD.replay(j, e["calls"][0], cmp, compare_text)
+                    except Exception as ex:  # noqa: BLE001
+                        import traceback
+
+                        cmp.bad.append("replay of the specification's call on the library raised %s: %s | %s"
+                                       % (type(ex).__name__, ex, traceback.format_exc()[-400:]))
+            elif e["status"] == "ok" and j["status"] == "ok":
                 rp = Replay(j["setup"], j["cmd"], j["st"], j["confs"], j["indir"], j["yaml_file"], e["cellsrc"])
                 try:
                     res = rp.run(e["calls"])
@@ -1342,7 +1554,9 @@ def workflow_level(ctx):
             for k, v in cmp.maxerr.items():
                 kk = k.split(":", 1)[-1] if ":" in k else k
                 margins[kk] = max(margins.get(kk, 0.0), v)
-            obs = dict(status=j["status"], out=abstract_outputs(j["written"]), bad=set(_short(b) for b in cmp.bad),
+            obs = dict(status=j["status"],
+                       out=j["aux_out"] if "aux_out" in j else abstract_outputs(j["written"], j["sweep"]),
+                       bad=set(_short(b) for b in cmp.bad),
                        checked=set(cmp.checked), solver=j["solver"])
             j["bad"] = cmp.bad
             j["expected"] = e
